@@ -62,6 +62,9 @@ func (p *Prog) JS() string {
 			sb.WriteString(fmt.Sprintf("delete b[%s];\n", jsText(op.K)))
 		case "delall":
 			sb.WriteString("Object.keys(b).forEach(function(k) { delete b[k]; });\n")
+		case "gcount":
+			// state kept on a built-in: visible to a later execution only if runtimes are shared
+			sb.WriteString(fmt.Sprintf("Math.vc = (Math.vc || 0) + 1; b[%s] = Math.vc;\n", jsText(op.K)))
 		case "poke":
 			sb.WriteString(fmt.Sprintf("(function(v){ if (Array.isArray(v)) { if (v.length > 0 && v[0] !== null && typeof v[0] === 'object' && !Array.isArray(v[0])) { v[0].poked = 1; } else if (v.length > 0) { v[0] = 1; } } else if (v !== null && typeof v === 'object') { v.poked = 1; } })(b[%s]);\n", jsText(op.K)))
 		}
@@ -153,6 +156,8 @@ func (p *Prog) Native(exeOnError bool) core.Action {
 				for k := range b {
 					delete(b, k)
 				}
+			case "gcount":
+				b[op.K] = 1.0
 			case "poke":
 				// b is a private deep copy: mutate the nested value in place
 				switch v := b[op.K].(type) {
@@ -225,6 +230,8 @@ func (p *Prog) coq() string {
 			ops = append(ops, "ADelAll")
 		case "poke":
 			ops = append(ops, "APoke "+coqString(op.K))
+		case "gcount":
+			ops = append(ops, "ACountGlobal "+coqString(op.K))
 		}
 	}
 	var term string
@@ -298,7 +305,9 @@ func (g *G) prog(guard bool) *Prog {
 		p.Ops = append(p.Ops, Op{Kind: "poke", K: g.pick(permKeys)})
 	}
 	for i := 0; i < nops; i++ {
-		switch k := g.intn(13); {
+		switch k := g.intn(14); {
+		case k == 13:
+			p.Ops = append(p.Ops, Op{Kind: "gcount", K: g.pick(bindKeys)})
 		case k == 12:
 			p.Ops = append(p.Ops, Op{Kind: "poke", K: g.key()})
 		case k < 4:
